@@ -38,6 +38,10 @@ RUNS = {
     "C15": [
         {"name": "K4-session-faults", "mode": "k4", "budget": (6000, 150000), "nontrivial": r"r:Error=(14|5|2|13|17|20|28|30|11|39|61)\b", "keyfn": "k4", "monitor": "lifecycle"},
     ],
+    "C13": [
+        {"name": "K4-read-boundaries", "mode": "k13", "budget": (150, 4000), "nontrivial": r"^rtyp=(117|41) ", "keyfn": "k4"},
+        {"name": "K6-client-sizing", "mode": "kneg", "budget": (1500, 30000), "nontrivial": r"ok=1", "keyfn": "generic"},
+    ],
     "C02": [
         {"name": "K2-framing", "mode": "k2", "budget": (1500, 40000), "nontrivial": r"recv\d+=(msg|proto)", "keyfn": "k2"},
     ],
@@ -46,6 +50,22 @@ RUNS = {
 NOT_YET = {}
 
 PROPS = {
+    "C13": {
+        "level_text": "Proof: the count tread.handle passes to the backend is min(count, msize-11), so 11+n <= msize for every count 0..2^32-1 and every "
+                      "msize >= 11 (a Tread itself needs 23); Rreaddir packs whole entries within min(count, msize-11) bytes (fit_length_le) so its frame "
+                      "is <= msize; largestFixedSize recomputed from the regenerated message table is 153 >= 23; after negotiation every client chunk "
+                      "is <= payload and payload + 153 <= min(requested, announced) msize, hence Twrite frames (23+chunk) and requested Rread frames "
+                      "(11+chunk) fit.",
+        "level_note": "Trusted: Lean kernel; the model's Tread/Treaddir handlers (Session/Handlers.lean) and NewClient sizing (Client/Version.lean) are "
+                      "hand-written and tied by K4-read-boundaries (real server, counts msize-12..msize+1, 4MiB, 2^32-1 at msize 24..8MiB, files and "
+                      "directories on both sides of the limit; reply frame length compared and checked against the negotiated msize) and K6-client-"
+                      "sizing (real client against a fake server lowering msize; every request frame size observed).",
+        "rule": "k13: per case Tversion(msize from {24,64,100,4096,8192,64K,1M,4M,8M}), attach, walk+open a file and the root directory, then 6 "
+                "Tread + 6 Treaddir with counts from {0,1,m-12,m-11,m-10,m-1,m,m+1,4MiB,4MiB+1,2^32-1,random}; backend fills the buffer in 2/3 of the "
+                "cases and lists m/60..m/20 entries. Non-trivial: an Rread/Rreaddir was produced. kneg: see C12.",
+        "assumptions": ["I6: an Rlerror is not an over-long Rread; ReaderAt contract n <= len(p)"],
+        "trusted_base": ["Session/Handlers.lean hTread/hTreaddir; Client/Version.lean negotiate"],
+    },
     "C04": {
         "level_text": "Proof on the session model: an unbound fid gives EBADF with no backend call, no state change and the tape untouched for every "
                       "fid-taking handler (generic withFid lemma + 17 instances, safe-name hypothesis where C09's EINVAL comes first); Tclunk leaves its "
